@@ -27,6 +27,80 @@ def impl_blocks(src, name):
     return "\n".join(out)
 
 
+DP = "crates/libs/sciparse/src/proto/dataplane_path/"
+EFFECT_FUNCTIONS = [
+    ("EFFECTS_INGRESS", DP + "standard/routing.rs", "advance_ingress_with_validator"),
+    ("EFFECTS_EGRESS", DP + "standard/routing.rs", "advance_egress_with_validator"),
+    ("EFFECTS_VIEW_TRY_REVERSE", DP + "standard/view.rs", "try_reverse"),
+    ("EFFECTS_MODEL_TRY_REVERSE", DP + "standard/model.rs", "try_reverse"),
+    ("EFFECTS_ONEHOP_VIEW_TRY_REVERSE", DP + "onehop/view.rs", "try_reverse"),
+    ("EFFECTS_ONEHOP_MODEL_TRY_REVERSE", DP + "onehop/model.rs", "try_reverse"),
+    ("EFFECTS_SCIONPATH_TRY_REVERSE", "crates/libs/sciparse/src/scion/path.rs", "try_reverse"),
+]
+
+EFFECT_PATTERNS = [
+    ("exit", r"\?"),
+    ("exit", r"\breturn\s+Err\b"),
+    ("panic", r"\.\s*expect\s*\("),
+    ("panic", r"\.\s*unwrap\s*\(\s*\)"),
+    ("panic", r"\bunreachable!\s*\("),
+    ("panic", r"\bdebug_assert(?:_eq|_ne)?!\s*\("),
+    ("panic", r"\bassert(?:_eq|_ne)?!\s*\("),
+    ("panic", r"\bpanic!\s*\("),
+    # writes through the receiver
+    ("write:{1}", r"\bself\s*\.\s*(set_\w+)\s*\("),
+    ("write:{1}", r"\bself\s*\.\s*(\w+_mut|mut_\w+)\s*\("),
+    ("write:{1}", r"\bself\s*\.\s*((?:\w+\s*\.\s*)*\w+)\s*(?:\^|\+|-|\|)?=(?!=)"),
+    ("write:{1}", r"\bself\s*\.\s*((?:\w+\s*\.\s*)*(?:reverse|swap|iter_mut|as_mut|push|clear|toggle|remove|insert))\s*\("),
+    ("write:mem_swap", r"\bstd::mem::swap\s*\("),
+    ("write:self", r"\*\s*self\s*=(?!=)"),
+]
+
+
+def fn_body(api, src, fn):
+    m = re.search(r"\bfn\s+" + re.escape(fn) + r"\b", src)
+    if not m:
+        raise api.ExtractError(f"fn {fn} not found")
+    i = src.index("{", m.end())
+    depth, j = 1, i + 1
+    while j < len(src) and depth:
+        if src[j] == "{":
+            depth += 1
+        elif src[j] == "}":
+            depth -= 1
+        j += 1
+    if depth:
+        raise api.ExtractError(f"fn {fn}: unbalanced braces")
+    return src[i + 1:j - 1]
+
+
+def effects_of(api, path, fn):
+    src = api.strip_comments(api.read(path))
+    body = fn_body(api, src, fn)
+    body = re.sub(r'"(?:[^"\\]|\\.)*"', '""', body)      # string literals may contain `?`
+    if re.search(r"\b(?:loop|while)\b", body):
+        raise api.ExtractError(f"fn {fn} contains a loop/while: source order of effects is no longer execution order")
+    evs = []
+    for tag, pat in EFFECT_PATTERNS:
+        for m in re.finditer(pat, body):
+            name = tag.replace("{1}", re.sub(r"\s+", "", m.group(1))) if "{1}" in tag else tag
+            evs.append((m.start(), name))
+    # `for` loops are allowed only after the last exit (they toggle / reverse fields)
+    exits = [p for p, n in evs if n == "exit"]
+    for m in re.finditer(r"\bfor\b", body):
+        if exits and m.start() < max(exits):
+            raise api.ExtractError(f"fn {fn}: a `for` loop precedes an early exit")
+    evs.sort()
+    out, last = [], None
+    for pos, name in evs:
+        if (pos, name) != last:
+            out.append(name)
+        last = (pos, name)
+    if not out:
+        raise api.ExtractError(f"fn {fn}: no effects found")
+    return out
+
+
 def register(api):
     def ranges_of(src, struct, want, extra_env=None):
         body = impl_blocks(src, struct)
@@ -147,5 +221,16 @@ def register(api):
         emit("PATH_MAX_SIZE_BYTES", api.eval_const("MAX_SIZE_BYTES", sh, {}) - size_bytes(ch, chc, "CommonHeaderLayout")
              - api.eval_const("MIN_SIZE_BYTES", ah, {}))
 
+        # ---- order of effects of the mutating functions (C11/C12 failure atomicity) -------------------
+        # For every modelled `&mut self` function: the source order of its early exits (`?`, `return Err`), its
+        # panic sites (`expect`, `unwrap`, `unreachable!`, `debug_assert!`, `panic!`, `assert!`) and its writes
+        # through the receiver.  The bodies are loop-free w.r.t. these events (the only loops toggle/reverse
+        # fields after the last exit), so source order = execution order on every path.
+        for const, path, fn in EFFECT_FUNCTIONS:
+            evs = effects_of(api, path, fn)
+            vals[const] = evs
+            lines.append(f"def {const} : List String := [" + ", ".join('"' + e + '"' for e in evs) + "]")
+
         body = "namespace ScionVerif.Generated.StdPath\n" + "\n".join(lines) + "\nend ScionVerif.Generated.StdPath\n"
-        return api.write_lean("StdPath", body, [STD_LAYOUT, STD_TYPES, OH_LAYOUT, HDR_LAYOUT, PATH_LAYOUT]), vals
+        return api.write_lean("StdPath", body, [STD_LAYOUT, STD_TYPES, OH_LAYOUT, HDR_LAYOUT, PATH_LAYOUT]
+                              + sorted({p for _, p, _ in EFFECT_FUNCTIONS})), vals
